@@ -19,6 +19,8 @@ ChList == TChoice(<<I07, TSeqOf(I07, NoSz)>>, 2, FALSE)
 \* a message that can be empty on the wire (nothing but absent OPTIONAL fields): as list element and as oneof member its
 \* PRESENCE is information even when its content is empty
 AllOpt == TSeq(<<O(I07), O(TBool)>>, 2, FALSE)
+\* a nested message whose encoded content length sweeps through the one- / two-octet boundary of its own length prefix
+InnerS == TSeq(<<M(TStr("utf8", NoSz))>>, 1, FALSE)
 EmptyM == << <<>>, <<>> >>
 FullM == << <<3>>, <<TRUE>> >>
 
@@ -37,14 +39,21 @@ PZoo == <<
   TSeq(<<M(TNull), M(I07), O(TNull), M(TBool)>>, 4, FALSE),
   TSeq(<<M(TSeqOf(Ch1, NoSz)), M(TSeqOf(Enum3, NoSz)), M(TSeqOf(TOct(NoSz), NoSz)), M(I07)>>, 4, FALSE),
   TSeq(<<M(TSeqOf(AllOpt, NoSz)), M(TChoice(<<AllOpt, TBool>>, 2, FALSE)), O(AllOpt), M(I07)>>, 4, FALSE),
+  TSeq(<<M(InnerS), M(TSeqOf(InnerS, NoSz)), M(I07)>>, 3, FALSE),
+  \* lists that are themselves OPTIONAL (absent, empty, several elements)
+  TSeq(<<O(TSeqOf(I07, NoSz)), O(TSeqOf(Inner, NoSz)), O(TSeqOf(TStr("utf8", NoSz), NoSz)), M(I07)>>, 4, FALSE),
   \* input classes of open findings
   TSeq(<<M(TSeqOf(TSeqOf(I07, NoSz), NoSz)), M(I07)>>, 2, FALSE),
   TSeq(<<M(ChList), M(I07)>>, 2, FALSE) >>
 
 \* hand-picked additional values: empty messages where their presence counts
-EmptyIdx == Len(PZoo) - 2
+EmptyIdx == Len(PZoo) - 4
+LenIdx == Len(PZoo) - 3
 PExtra(i) ==
-  IF i # EmptyIdx THEN <<>>
+  IF i = LenIdx
+  THEN \* content of the nested message = 2 + n octets for n <= 127: 125, 126, 127 octets of text give 127, 128, 129
+       [q \in 1..8 |-> LET n == 122 + q IN << << << <<Ascii(n)>> >> >>, << << << <<Ascii(n + 1)>> >>, << <<Ascii(3)>> >>, << <<Ascii(n)>> >> >> >>, <<5>> >>]
+  ELSE IF i # EmptyIdx THEN <<>>
   ELSE << << <<<<FullM, EmptyM, FullM>>>>, <<[i |-> 0, v |-> EmptyM]>>, <<>>, <<5>> >>,
           << <<<<EmptyM, EmptyM>>>>, <<[i |-> 0, v |-> FullM]>>, <<EmptyM>>, <<5>> >>,
           << <<<<EmptyM>>>>, <<[i |-> 1, v |-> TRUE]>>, <<FullM>>, <<0>> >> >>
